@@ -18,12 +18,12 @@ for _, {{ $.Source }} := range {{ $.ArgVar }} {
 	{{ .Validate }}
 		{{- range .Fields -}}
 			{{- if .IsRequired -}}
-if {{ $.Source }}.{{ goify .Name true }} == nil {
+if {{ $.Source }}.{{ .FieldName }} == nil {
 	err = goa.MergeErrors(err, goa.MissingFieldError({{ printf "%q" .Name }}, {{ printf "%q" $.Source }}))
 }
 			{{- end }}
-if {{ $.Source }}.{{ goify .Name true }} != nil {
-	if err2 := {{ .ValidateVar }}({{ $.Source }}.{{ goify .Name true }}); err2 != nil {
+if {{ $.Source }}.{{ .FieldName }} != nil {
+	if err2 := {{ .ValidateVar }}({{ $.Source }}.{{ .FieldName }}); err2 != nil {
 		err = goa.MergeErrors(err, err2)
 	}
 }
